@@ -72,6 +72,18 @@ Definition c17_put_spec (existing : list bytes) (name : bytes) (status : Z) (cod
     else expect (ok_status status) "valid-name-refused"
   else expect ((status =? 400) && beq code (B "InvalidBucketName")) "invalid-name-not-refused-with-InvalidBucketName".
 
+(* GET /<name> on a server with the auto-bucket option: the bucket is made on first use, under the
+   same name rule as create-bucket (gofakes3.go ensureBucketExists) *)
+Definition c17_touch_model (existing : list bytes) (name : bytes) (status : Z) (code : bytes)
+  : list bytes * list bytes :=
+  if validate name
+  then ((if existsb (beq name) existing then existing else name :: existing), expect (status =? 200) "status")
+  else (existing, expect ((status =? 400) && beq code (B "InvalidBucketName")) "expected-400-InvalidBucketName").
+
+Definition c17_touch_spec (existing : list bytes) (name : bytes) (status : Z) (code : bytes) : list bytes :=
+  if valid name then expect (ok_status status) "valid-name-refused"
+  else expect (negb (ok_status status)) "invalid-name-served".
+
 Fixpoint subset (a b : list bytes) : bool :=
   match a with [] => true | x :: a' => existsb (beq x) b && subset a' b end.
 Definition c17_list_check (existing listed : list bytes) : list bytes :=
